@@ -543,6 +543,45 @@ def check_simple(ctx, cfg, it):
         ctx.ob("C06.I", K["into_iter"], ok, "into_iter builds {array: self, index: 0, index_back: N}: %s" % ", ".join(vstr(r["val"]) for r in an.returns), at=b["at"], cfg=cfg)
 
 
+def fold_by_next_loop(an, name):
+    """fold / rfold written the way core's defaults are: acc = init; while let Some(x) = self.next() { acc = f(acc, x) } acc
+    (next_back for rfold).  Safe code over the iterator's own next(): the queue behaviour is inherited from next() (C06.S)."""
+    from ..loops import method_loops
+    from ..absint import State
+    want = K["next"] if name == "fold" else K["next_back"]
+    other = K["next_back"] if name == "fold" else K["next"]
+    lps = method_loops(an, (want, other))
+    if len(lps) != 1 or lps[0].nxt.key != want:
+        return False, "neither a std fold driver nor exactly one loop over self.%s() found" % want.split("::")[-1]
+    lp = lps[0]
+    recv = lp.nxt.args[0]
+    self_ok = recv[0] == "P" and recv[1] == ("local", 1) and not recv[2].t
+    fcalls = [c for c in lp.calls() if c.fn == "core::ops::FnMut::call_mut"]
+    once = lp.count_on_paths(lambda c: c.fn == "core::ops::FnMut::call_mut") == {1}
+    others = [c.fn for c in lp.calls() if c not in fcalls and not is_panic(c) and not an.is_pure(c) and not getattr(c, "no_effects", False)]
+    args_ok = init_ok = ret_ok = False
+    if len(fcalls) == 1:
+        fc = fcalls[0]
+        accs = [s_ for s_ in an.assigns if s_["val"] == fc.ret and s_["cell"][0][0] == "local"]
+        dest = (("local", fc.term["dest"]["l"]), ()) if not fc.term["dest"]["p"] else None
+        cells = {s_["cell"] for s_ in accs} | ({dest} if dest else set())
+        head = State(lp.nxt.mem, lp.nxt.facts)
+        for cell in cells:
+            at_head = an.read_cell(head, cell[0], cell[1], None)
+            if fc.args[1] == ("A", "tuple", (at_head, lp.payload)):
+                args_ok = True
+                ret_ok = bool(an.returns) and all(r["val"] == at_head and ("variant", lp.nxt.ret, 0) in r["facts"] for r in an.returns)
+                init_ok = any(s_["cell"] == cell and s_["val"] == ("V", "arg", 2) and an.dominates(s_["site"][0], lp.nxt.bb) for s_ in an.assigns)
+    ok = self_ok and once and args_ok and init_ok and ret_ok and not lp.breaks and not others
+    return ok, ("loop over self.%s(): %s; left only when it returns None: %s; each step calls f exactly once: %s with (accumulator, the yielded value): %s; no other effectful call in the step: %s; accumulator starts as init: %s and is returned after the None: %s"
+                % (want.split("::")[-1], self_ok, not lp.breaks, once, args_ok, not others, init_ok, ret_ok))
+
+
+def is_panic(c):
+    from ..rules import is_panic_plumbing
+    return is_panic_plumbing(c)
+
+
 def check_folds(ctx, cfg, it, name):
     rule = "C06.S"
     b, an = analyse(ctx, cfg, K[name], it, True)
@@ -556,7 +595,9 @@ def check_folds(ctx, cfg, it, name):
     drv = [c for c in an.calls if c.fn in ("core::iter::Iterator::fold", "core::iter::DoubleEndedIterator::rfold", "core::iter::Iterator::for_each", "core::iter::Iterator::try_fold")]
     ok = len(drv) == 1 and drv[0].fn == want_fn
     det = "expected exactly one %s over the live range; found %s" % (want_fn, [c.fn for c in drv])
-    if ok:
+    if not drv:
+        ok, det = fold_by_next_loop(an, name)
+    elif ok:
         d = drv[0]
         itv = d.args[0]
         shape = isinstance(itv, tuple) and len(itv) == 5 and itv[:3] == ("V", "iter", "slice")
